@@ -2,8 +2,8 @@
 (* C03, code level: TLC judges what the implementation did with                         *)
 (*  cases : PDUs built from field values  [name, vals, err, n, bits, dec, bits2]        *)
 (*  raws  : arbitrary right-length bit strings [family, n, outcome, n1, bits1, bits2]   *)
-(*  elems : every value of every element enumeration [enum, w, v, defined, result, wbits, back] *)
-EXTENDS PDULayouts, Json, IOUtils, TLC
+(*  elems : every value of every element enumeration [enum, w, v, defined, result, rname, wbits, back] *)
+EXTENDS PDULayouts, Elements, Json, IOUtils, TLC
 
 D == JsonDeserialize(IOEnv.DATA_FILE)
 VARIABLES phase, chunk, idx
@@ -39,9 +39,13 @@ Judge(ph, i) ==
          LET e == D.elems[i + 1] IN
          [why |-> IF e.defined /\ e.result # e.v THEN "DefinedValueMapsToItself"
                   ELSE IF e.result = -2 THEN "UndefinedValueMapsToNothing"
+                  ELSE IF ~e.defined /\ e.result >= 0 /\ ClassOf(e.enum, e.v) # "" /\ e.rname # ClassOf(e.enum, e.v)
+                       THEN "UndefinedValueMapsToStandardsReservedMember"
                   ELSE IF e.result >= 0 /\ e.back # e.result THEN "ElementBitsRoundTrip"
                   ELSE IF e.result >= 0 /\ e.wbits # e.w THEN "ElementWidth" ELSE "ok",
           dr |-> "ok"]
+
+ASSUME ClassesDisjoint
 
 Report ==
   LET j == Judge(phase, idx') IN
